@@ -15,7 +15,8 @@ import (
 // The quiescence barrier, the discrete-event Advance and the goroutine probe of package sysx, with one
 // difference: the goroutine dump goes into a buffer that is reused. sysx.Settle allocates 256 KiB and
 // sysx.LibGoroutines 1 MiB per call; with ~150 barriers per execution that was 85 % of the CPU time of
-// this check (clearing and returning pages). The decision logic is the same as in sysx.
+// this check (clearing and returning pages). The decision logic is the same as in sysx, with one
+// strengthening: a runnable goroutine WITHOUT library frames also means "not quiescent" (see settle).
 
 var stackBuf = make([]byte, 1<<18)
 
@@ -39,8 +40,8 @@ var (
 	sep          = []byte("\n\n")
 )
 
-// settle waits until every goroutine whose stack contains library frames is blocked (not runnable, not
-// waiting for a mutex); false when that does not happen within the hang limit.
+// settle waits until no goroutine other than the caller is runnable and no goroutine with library frames
+// waits for a mutex; false when that does not happen within the hang limit.
 func settle() bool {
 	deadline := time.Now().Add(sysx.HangLimit)
 	for round := 0; ; round++ {
@@ -57,8 +58,8 @@ func settle() bool {
 				busy = true
 				break
 			}
-			if !bytes.Contains(g, libMarker) || bytes.Contains(g, selfMarker) {
-				continue
+			if bytes.Contains(g, selfMarker) {
+				continue // the caller
 			}
 			nl := bytes.IndexByte(g, '\n')
 			if nl < 0 {
@@ -70,10 +71,16 @@ func settle() bool {
 				continue
 			}
 			state := head[lb+1 : rb]
+			// ANY runnable goroutine counts, not only those with library frames: the helper goroutines of
+			// memnet / vtime (deadline and timer callbacks started with "go f()") are about to wake library
+			// goroutines, and must have run before the system is called quiescent
 			for _, b := range busyStates {
 				if bytes.HasPrefix(state, b) {
 					busy = true
 				}
+			}
+			if !bytes.Contains(g, libMarker) {
+				continue
 			}
 			for _, m := range mutexStates {
 				if bytes.HasPrefix(state, m) && !bytes.Contains(g, wgWaitMarker) {
